@@ -239,6 +239,37 @@ def own_format(x):
     return text.rstrip("0").rstrip(".") if "." in text else text
 
 
+# unit pairs whose factor is exact by definition (1 kg = 1000 g, 1 l = 1000 ml, 1 tbsp = 15 ml = 3 tsp, 1 lb = 16 oz): the converted amount of an
+# exact quantity is an exact number and must be displayed as one (whole number, or fraction with a listed denominator)
+EXACT_FACTORS = {("g", "kg"): Fraction(1, 1000), ("kg", "g"): Fraction(1000), ("l", "ml"): Fraction(1000), ("ml", "l"): Fraction(1, 1000),
+                 ("l", "tbsp"): Fraction(200, 3), ("l", "tsp"): Fraction(200), ("ml", "tbsp"): Fraction(1, 15), ("ml", "tsp"): Fraction(1, 5),
+                 ("tbsp", "l"): Fraction(3, 200), ("tbsp", "ml"): Fraction(15), ("tbsp", "tsp"): Fraction(3), ("tsp", "l"): Fraction(1, 200),
+                 ("tsp", "ml"): Fraction(5), ("tsp", "tbsp"): Fraction(1, 3), ("lb", "oz"): Fraction(16), ("oz", "lb"): Fraction(1, 16)}
+
+
+def check_exact_conversions():
+    from recipe_grid.recipe import Quantity
+    from recipe_grid.renderer.html import render_quantity
+    import html as pyhtml
+    out = []
+    for (a, b), f in sorted(EXACT_FACTORS.items()):
+        for v in (1, 2, 3, 8, 12, 250, 500, Fraction(1, 2), Fraction(1, 3), Fraction(3, 4), Fraction(5, 2)):
+            want = own_format(v * f)
+            if want is None:
+                continue
+            for unit in (a, a.upper(), a.title()):
+                h = render_quantity(Quantity(v, unit, " "))
+                items = [pyhtml.unescape(re.sub(r"<[^>]*>", "", it)).replace("\u2044", "/") for it in re.findall(r"<li>(.*?)</li>", h, re.S)]
+                shown = [" ".join(it.rsplit(" ", 1)[0].split()) for it in items if it.rsplit(" ", 1)[-1].strip() == b]
+                if shown != [want]:
+                    out.append(("C11:converted-amount-not-shown-exactly", "%s %s in %s: shown %r, exactly %s" % (v, unit, b, shown, want)))
+                    break
+            else:
+                continue
+            break
+    return out
+
+
 def check_scaled_display():
     """numbers written in braces inside names and descriptions, shown after scaling: in the ingredient cell, in every reference to it (link
     text = the name of a sub recipe whose title is hidden) and in step descriptions - exactly k times the written number, displayed as documented"""
@@ -273,6 +304,19 @@ def check_scaled_display():
             if len(shown) < 6 or any(x != want for x in shown):
                 out.append(("C11:scaled-number-shown-wrong", "{%s} scaled by %r must read %r in every cell; cells show %r" % (text, k, want, shown)))
                 break
+    # through the Markdown front end (MarkdownRecipe.render), with decimal factors that are not short fractions
+    from recipe_grid.markdown import compile_markdown
+    vals = [4500, 30000, 250, 3, Fraction(1, 2), 2.5]
+    doc = "# T for 4\n\nUse " + " and ".join("{%s}" % (("%d/%d" % (v.numerator, v.denominator)) if isinstance(v, Fraction) else v) for v in vals) + " things.\n\n    4500 g flour\n"
+    mr = compile_markdown(doc)
+    for k in (1.0005, 0.3333, 0.0005, 2.5, 1.5, 0.1, 3, Fraction(2, 3), 1.0):
+        want = [own_format(v * k) for v in [4] + vals]
+        page = mr.render(k)
+        shown = [" ".join(re.sub(r"<[^>]*>", "", x).replace("&frasl;", "/").replace("\u2044", "/").split())
+                 for x in re.findall(r'<span class="rg-scaled-value">(.*?)</span>', page.split("rg-recipe-block")[0], re.S)]
+        if None not in want and shown[:len(want)] != want:
+            out.append(("C11:scaled-number-shown-wrong", "render(%r) of %r shows %r, expected %r" % (k, doc[:60], shown, want)))
+            break
     return out
 
 
@@ -283,6 +327,9 @@ def oracle(run):
         if sig not in seen:
             seen.add(sig)
             run.violate(sig, detail, {"percentages": True})
+    run.case(("exact-conversions",), True, kind="exact-conversions")
+    for sig, detail in check_exact_conversions()[:3]:
+        run.violate(sig, detail, {"exact_conversions": True})
     run.case(("scaled-display",), True, kind="scaled-display")
     for sig, detail in check_scaled_display()[:3]:
         run.violate(sig, detail, {"scaled_display": True})
@@ -306,6 +353,11 @@ def oracle(run):
 def replay(run, obj):
     if obj["replay"].get("percentages"):
         res = check_percentages()
+        for r in res:
+            print(*r)
+        return bool(res)
+    if obj["replay"].get("exact_conversions"):
+        res = check_exact_conversions()
         for r in res:
             print(*r)
         return bool(res)
